@@ -13,14 +13,16 @@ PROPS = {
     'C06': {
         'units': ['unify'],
         'functions': ['unifiable.rs::Unifiable::unify'],
-        'oracles': {'#sound': 'c06_mgu', '#args_sound_inv': 'c06_mgu', '#bind_sound': 'c06_mgu', '#list_sound_inv': 'c06_mgu',
+        'oracles': {'#mgu': 'c06_mgu', '#args_mgu_inv': 'c06_mgu', '#list_mgu_inv': 'c06_mgu', '#args_mgu_step': 'c06_mgu', '#sound': 'c06_mgu', '#args_sound_inv': 'c06_mgu', '#bind_sound': 'c06_mgu', '#list_sound_inv': 'c06_mgu',
                     '#list_sound_step': 'c06_mgu', '#list_sound_exits': 'c06_mgu', '*': 'c06_keeps'},
-        'bounded': [('c06_mgu', 'the clauses not under proof - success exactly when a unifier exists, identical when resolved, no more bindings than an MGU - against a reference unifier: '
+        'bounded': [('c06_mgu', 'supplementary to the proof (soundness, completeness and generality are all under proof): success exactly when a unifier exists, identical when resolved, no more bindings than an MGU - against a reference unifier: '
                                 '22 terms (atoms, numbers, variables, $_, complex terms, lists with and without tail variables) pairwise under 7 prior substitutions; occurs-check pairs skipped')],
         'not_covered': [
-            'completeness in general (unification succeeds whenever a unifier exists) - only the constant/constant and unbound-variable/constant cases are proved',
-            'soundness (identical when resolved, to every depth; $_ as wildcard; a tail variable standing for the rest of the other list) IS proved for all term kinds including lists; function terms are outside C06 (C13)',
-            'minimality of the binding set in general (proved: equal terms add nothing; every new binding is of a previously unbound variable)',
+            'PROVED for all `clean` terms and substitutions (no `$_` - C09 -, no function term - C13 -, no NaN float, lists never entered at a tail-variable node): COMPLETENESS and MOST-GENERALITY in one clause (#mgu, spec/mgu.rs): '
+            'for every assignment of finite value trees to variables that respects the prior bindings and gives the two terms the same value, unify succeeds and the assignment respects the resulting substitution '
+            '(so unify fails only when no unifier extending the prior bindings exists, and every such unifier is an instance of the result); pairs that would need an occurs check have no finite solution and are outside the clause, as in the statement',
+            'soundness (identical when resolved, to every depth; $_ as wildcard; a tail variable standing for the rest of the other list) is proved in the resolved-term formalism (spec/sound.rs), completeness/generality in the value-tree formalism (spec/mgu.rs); '
+            'float equality is IEEE `==` in the first (0.0 = -0.0 unify) and identity of the value in the second - the two clauses are not connected by a proved theorem',
             'termination of unify (recursion through bound variables has no structural measure; exec_allows_no_decreases_clause)',
         ],
     },
